@@ -25,11 +25,12 @@ pub struct FaultCtx {
 }
 
 impl FaultCtx {
-    pub fn new(codec: Codec) -> FaultCtx {
+    /// The event fault families of the given menu events.
+    pub fn new(codec: Codec, events: &[usize]) -> FaultCtx {
         let mut bad = std::collections::BTreeSet::new();
         let mut mutants = std::collections::BTreeSet::new();
         let mut valid = vec![];
-        for i in 0..MENU {
+        for i in events.iter().copied().filter(|i| *i < MENU) {
             let ev = menu_event(i);
             let (e, faults) = match codec {
                 Codec::Bin => {
